@@ -2,16 +2,32 @@
 """Regenerates MANIFEST.json from the table below (kept as a script so the manifest stays valid)."""
 import json, os
 
+COMMON_NOTE = "Hypotheses of the theorems (stated explicitly, never axioms): digests pairwise distinct (SHA-2 collision resistance, fresh salts), no hash fixed point, claim names not reserved. The hand-written Impl model is validated against /repo by the correspondence run of this check, not verified; crypto, base64, JSON/YAML text parsing, CSPRNG and clock are parameters of the model. "
+TECH = "Lean 4 proof over hand-written model + differential correspondence (real crate vs Impl model vs Lean spec)"
+
 CLAIMED = {
- "C01": dict(partial=False, design="§5 C01, §4 T-issue/T-restore",
-   text="Lean theorems over the marked-tree spec and the Impl model of the restorer (stripping law removeAll∘hview = project for all conformant trees; T-restore step lemmas), plus a correspondence run: random claims trees x markings x orders issued by the real Issuer, verified by the real Holder, compared with the Impl model (real vs model), with the Lean spec (plain T, paths, payload T) and with the reference verifier on the same bytes.",
-   note="Digest distinctness (SHA-2 collision resistance, fresh salts) and NoReserved claim names are hypotheses of the theorems; the Impl model is validated against /repo by the run, not verified.",
-   tech="Lean 4 proof over hand-written model + differential correspondence (real crate vs model vs spec)"),
- "C10": dict(partial=True, design="§5 C10",
-   text="PARTIAL. Lean theorems: every modelled splitter / decoder / restorer returns ok or err for every input (the model has an explicit panic outcome at every Rust panic site; the pre-fix transcription of sd_jwt_parts is shown to panic). Correspondence: all strings over {a . ~} up to length 9/12 through every public entry point under catch_unwind, compared with the model; validly signed payloads of every JSON type, malformed disclosures, mutated tokens, junk through the small parsers.",
-   note="Third-party parsers and crypto are exercised, not modelled. Known finding KF-1: jwt-rustcrypto leeway arithmetic overflows (dependency).",
-   tech="Lean 4 totality proofs over the model + exhaustive/structured differential run under catch_unwind"),
+ "C01": dict(design="§5 C01, §4", text="Lean: stripping law removeAll(hview S T) = project S T for every conformant marked tree, T-restore step lemmas; run: random claims trees x markings x descendants-first orders x decoys/cnf/exp/13 algorithms issued by the real Issuer and verified by the real Holder, compared with the Impl model, with the Lean spec (plain T, payload T, paths) and with the reference verifier on the same bytes.", note=""),
+ "C02": dict(design="§5 C02", text="Lean: holder filter characterised (kept iff path not redacted and not below a redacted disclosure; no-op for non-disclosable paths; order preserved) and stripping = projection; run: own and reference-issued tokens x 6-7 redaction lists each (none, all, subsets, enclosing claim only, non-existent / near-miss paths), bound and unbound, through Holder::presentation/redact/build and Verifier::verify against project(keep T R) computed by the Lean spec; holder prefix compared byte for byte with the model.", note=""),
+ "C03": dict(design="§5 C03", text="Lean (for arbitrary payloads and lists): repeated disclosure rejected, any undecodable/malformed string rejected, restoration total, strip of any holder view is a projection of the original; run: adversarial lists (subsets, permutations, duplicates, foreign disclosures of a second issuance, flipped/truncated/non-alphabet characters, wrong arity, non-string/reserved names, empty segments) against Err or project(S) with S within the ancestor-closed part of the list, exact for clean ancestor-closed lists.", note=""),
+ "C04": dict(partial=True, design="§5 C04", text="PARTIAL. Lean: decode accepts iff header alg = configured alg, key family admits it, signature primitive accepts and the claims policy holds; both 13-row algorithm tables are the identity on names (decided over the whole table) and injective; other algorithm / other family / bad signature rejected; holder and verifier fail without touching disclosures when decode fails. Run: exhaustive 13x13x12 matrix + public-key-as-HMAC-secret confusion + forged HS tokens + single character / single bit mutations of all three segments for all 13 algorithms.", note="Unforgeability and byte-exactness of the signature primitives (RustCrypto) are a hypothesis, exercised by the run, not proved. "),
+ "C05": dict(design="§5 C05", text="Lean: C05_accept_iff states the decision of Verifier::verify_raw outright (unbound and no KB, or bound + KB + policy + key-binding check + sd_hash = H(presentation up to last ~)); verify_kb opened (RSA JWK shape, typ kb+jwt); any change of the disclosure list changes the hashed string (C05_tamper, for all lists); unbound+KB rejected; holder refuses to build without binding. Run: genuine presentations x 5 policies, KB stripped/swapped, 6 kinds of list edits after binding, 16 crafted single-defect KB-JWTs, unbound tokens.", note="Signature/audience/algorithm checks of the KB-JWT are the JWT library's (see C04/C11). "),
+ "C06": dict(design="§5 C06", text="Lean: every string in payload T (names and string values at any depth) is a string outside all marked nodes, a digest, or _sd/... (C06_payload, all trees); presented disclosures exclude redacted paths and everything below a redacted disclosure. Run: unique sentinels in every name and value; decoded header/payload of the issuer JWT and every decoded segment of Holder::build output searched for sentinels that must be absent; disclosure counts.", note="Byte level (JSON text / base64 contain a string only if the tree does) is checked by the search, not proved. "),
+ "C07": dict(design="§5 C07", text="Lean: disclosure JSON round trip, reserved names never disclosed, member digest goes to the parent's _sd, element digest takes the element's index, _sd_alg declared; Spec/RefVerify.lean is the independent verifier (written from the specification, shares nothing with Impl). Run: framing/alphabet, payload vs spec placement with digests recomputed by the driver's own SHA-2, RefVerify on the real bytes for full/empty/random (thorough: all) sub-lists, Disclosure API over names x values x salt lengths x 3 hash algorithms.", note=""),
+ "C08": dict(design="§5 C08", text="Lean: MJ is the abstract syntax of every conformant SD-JWT (any _sd order, decoys anywhere, recursion); digest = hash of the string as presented; strip of the restored view = plain T / project S T. Run: tokens issued by the Lean reference issuer (sha-256/384/512, permuted lists, 3 JSON formattings, salts 0-64 chars, decoys at any level) through Holder::verify, Holder::build, Verifier::verify, and the derived presentations through RefVerify (strict).", note=""),
+ "C09": dict(partial=True, design="§5 C09", text="PARTIAL. Lean: content of the KB-JWT (typ, alg, aud, nonce, iat, sd_hash = H(prefix) under the declared algorithm), prefix independent of nonce/clock, drop_kb of the full presentation is exactly the hashed prefix (for all strings). Run: bound tokens x redactions x RS/PS 256/384/512 x 3 builds; sd_hash recomputed by the Lean driver, signature checked through decode and verify_kb and refused under another key, iat window, nonce form and distinctness.", note="Nonce freshness (CSPRNG) and the clock are observed by the run, not proved. "),
+ "C10": dict(partial=True, design="§5 C10", text="PARTIAL. Lean: every modelled splitter / decoder / validator / restorer / issuer step returns ok or err for every input (explicit panic outcome at every Rust panic site; the pre-fix transcription of sd_jwt_parts is shown to panic). Run: all strings over {a . ~} up to length 9/12 through every public entry point under catch_unwind and compared with the model; validly signed payloads of every JSON type, malformed disclosures, mutated tokens, junk through the small parsers.", note="Third-party parsers and crypto are exercised, not modelled. Known finding KF-1: jwt-rustcrypto leeway arithmetic overflow (dependency). "),
+ "C11": dict(design="§5 C11", text="Lean: frame condition for every builder and field; C11_order: for ANY sequence of steps each field is determined by the sub-sequence naming it (hence commutation in any interleaving); C11_enforce: decode accepts iff all configured constraints hold (exp/nbf with leeway, iss, sub, aud, required claims) outside the overflow region. Run: all builder sequences up to length 3/4, random reorderings, >6000 (policy, single-violation token) pairs through decode/Holder::verify/Verifier::verify.", note="The claims checks of jwt-rustcrypto are re-modelled from its source and compared on threshold cases, not verified; exact boundary second covered by the theorem, not the run. "),
+ "C12": dict(design="§5 C12", text="Lean, for ARBITRARY payloads and lists: wrong shape/arity, non-string name, reserved name, undecodable string => rejected wherever it stands; _sd not an array, placeholder with extra members, digest embedded twice anywhere at any depth => rejected (the validating pre-pass is characterised exactly: it succeeds only with pairwise distinct embedded digests and returns them); name collision and arity-vs-place rejected at the object/element; unsupported _sd_alg rejected by holder and verifier. Run: reference-issued tokens with exactly one seeded defect (11 kinds, any depth, also inside disclosure values) through the three entry points, twins accepted.", note=""),
+ "C13": dict(partial=True, design="§5 C13", text="PARTIAL. Lean (randomness as parameter): one draw per disclosure, distinct draws give pairwise distinct digests even for identical claims, order transfer under a fixed permutation. Run: the property's own numbers - quick >= 4*10^5 decoys and >= 5*10^4 disclosures, thorough >= 6*10^6 and >= 10^6: salts >= 16 bytes and distinct, digests and decoys distinct, decoys != real digests, same form, count in [1,max], every digest list (top-level, nested, inside disclosed values) not constantly in marking order over >= 200 issuances.", note="The CSPRNG is observed, not proved; false-alarm probabilities as computed in the property. "),
+ "C14": dict(design="§5 C14", text="Lean: encode never panics on a claims object for all paths / digests / decoy draws / cnf (a non-object root does - witness); error classification (no slash, unknown member, index out of range, non-numeric index, into scalar, through removed member). Run: valid markings and path lists with one invalid path of 9 kinds at random positions, decoy maxima -3..50, 3 encodes per issuer with Debug rendering before/after, every output verified, exp window; class and payload compared with the issuer model.", note="That encode(&mut self) leaves the issuer unchanged is observed by the run. "),
+ "C15": dict(design="§5 C15", text="Lean: tag walk and conversion total; tagged non-string key is an error; tagged key descends and pushes nested paths first; single-entry tagged mapping and tagged sequence item parse. Run: block YAML printed from random marked trees (quoted/plain keys, all core scalar types, tags on keys at any depth / below tagged keys / in single-entry mappings / on string items) through parse_yaml vs (plain claims, set of pointers) and the model, then Issuer::iter_disclosable + encode + Holder::verify.", note="YAML text -> serde_yaml::Value is trusted. "),
+ "C16": dict(design="§5 C16", text="Lean: C16_header - for every header record and every member name, the returned JSON has the field of that name when set and nothing otherwise; alg names preserved. Run: all 2^9 subsets x 13 algorithms (quick: 2 algorithms full, 11 sampled), random Unicode values and list lengths, through Issuer::header/encode, Holder::verify, Verifier::verify, decode and the wire bytes.", note="jwk field excluded as in the property. "),
 }
+
+for _k, _v in CLAIMED.items():
+    _v.setdefault("partial", False)
+    _v["note"] = COMMON_NOTE + _v["note"]
+    _v["tech"] = TECH
 
 REASON_PENDING = "check under construction in this session: model and correspondence exist in part; not yet registered"
 
